@@ -75,7 +75,7 @@ theorem seqLike_complete {ext : Ext} {xs : SVals} {pe : Bool → B → List Int 
       cases large <;> simp only [seqSpec, isUnknownVariant, Bool.false_eq_true, if_false] at hi <;>
         (cases hh : interpAll ext cdt cn cmd xs with
           | ok ls => exact ⟨ls, rfl⟩
-          | error e => simp [hh, bind, Except.bind] at hi)
+          | error e => simp [specBytes_eq, hh, bind, Except.bind] at hi)
     obtain ⟨ls, hia⟩ := hia
     obtain ⟨v', hv'⟩ := setValidity_true_total v (offs.length - 1)
     obtain ⟨r, hpr, hroom, hl2⟩ := hpe large el (offs ++ [((dec el).length : Int)]) ((dec el).length : Int) cdt cn cmd ls hgel (by omega) (by simp)
@@ -126,7 +126,7 @@ theorem seqLike_complete {ext : Ext} {xs : SVals} {pe : Bool → B → List Int 
         | cases hi
         | (cases hh : u8All xs with
             | ok bs => exact ⟨bs, rfl, rfl⟩
-            | error e => simp [hh, bind, Except.bind] at hi)
+            | error e => simp [specBytes_eq, hh, bind, Except.bind] at hi)
     obtain ⟨bs, hbs, hbin⟩ := hbs
     have hbl := u8All_length xs bs hbs
     obtain ⟨v', hv'⟩ := setValidity_true_total v (offs.length - 1)
@@ -148,7 +148,7 @@ theorem seqLike_complete {ext : Ext} {xs : SVals} {pe : Bool → B → List Int 
         | cases hi
         | (cases hh : u8All xs with
             | ok bs => exact ⟨bs, rfl, rfl⟩
-            | error e => simp [hh, bind, Except.bind] at hi)
+            | error e => simp [specBytes_eq, hh, bind, Except.bind] at hi)
     obtain ⟨bs, hbs, hbin⟩ := hbs
     have hbl := u8All_length xs bs hbs
     obtain ⟨v', hv'⟩ := setValidity_true_total v views.length
@@ -170,6 +170,7 @@ theorem seqLike_complete {ext : Ext} {xs : SVals} {pe : Bool → B → List Int 
     obtain ⟨rfl, _⟩ := hsh
     simp only [seqSpec, isUnknownVariant, Bool.false_eq_true, if_false] at hi
     obtain ⟨bs, hbs, hi⟩ := (bind_ok _ _ _).1 hi
+    have hbs := (specBytes_ok_iff _ _).1 hbs
     have hcnt : (bs.length != m) = false := by
       by_cases hm : (bs.length : Int) = (m : Int)
       · simp; omega
